@@ -404,6 +404,7 @@ type frame struct {
 	env     map[string]taint
 	errSrc  map[string]*FuncInfo // error variable -> callee that produced it (nil entry = unresolved call)
 	errName map[string]string
+	pending map[string]bool // error variables of price lookups not yet tested
 	path    []int
 	cond    bool
 	closure bool
@@ -846,7 +847,7 @@ func (w *walker) inline(fr *frame, call *ast.CallExpr, g *FuncInfo) []taint {
 	for _, a := range call.Args {
 		w.noteCalls(fr, a)
 	}
-	sub := &frame{fi: g, env: map[string]taint{}, errSrc: map[string]*FuncInfo{}, errName: map[string]string{}, path: fr.path, cond: fr.cond, closure: fr.closure, entry: len(fr.path)}
+	sub := &frame{fi: g, env: map[string]taint{}, errSrc: map[string]*FuncInfo{}, errName: map[string]string{}, pending: map[string]bool{}, path: fr.path, cond: fr.cond, closure: fr.closure, entry: len(fr.path)}
 	i := 0
 	for _, p := range g.decl.Type.Params.List {
 		names := p.Names
@@ -892,6 +893,14 @@ func (w *walker) bindErr(fr *frame, lhs []ast.Expr, call *ast.CallExpr, g *FuncI
 		return
 	}
 	if id, ok := lhs[len(lhs)-1].(*ast.Ident); ok && id.Name != "_" {
+		if fr.pending[id.Name] && !fr.closure {
+			// the error of an earlier price lookup is overwritten before it was tested: that error is lost
+			w.emit(fr, Item{kind: kSwallow, cls: cPrice, line: line(call), detail: "overwritten:" + fr.errName[id.Name]})
+		}
+		delete(fr.pending, id.Name)
+		if isBasePrice(g) {
+			fr.pending[id.Name] = true
+		}
 		fr.errSrc[id.Name] = g
 		n := ""
 		if se, ok := call.Fun.(*ast.SelectorExpr); ok {
@@ -1138,6 +1147,11 @@ func (w *walker) walkIf(fr *frame, s *ast.IfStmt) {
 	}
 	nn := errVarsNonNil(s.Cond)
 	fails := w.blockFails(fr, s.Body, nn)
+	for v := range fr.pending {
+		if mentionsIdent(s.Cond, v) {
+			delete(fr.pending, v)
+		}
+	}
 	w.noteCalls(fr, s.Cond)
 	if fails && !fr.closure {
 		for _, d := range splitOr(s.Cond) {
@@ -1248,7 +1262,7 @@ func extractHandlers() []Handler {
 				}
 			}
 			w := &walker{}
-			fr := &frame{fi: fi, env: map[string]taint{}, errSrc: map[string]*FuncInfo{}, errName: map[string]string{}}
+			fr := &frame{fi: fi, env: map[string]taint{}, errSrc: map[string]*FuncInfo{}, errName: map[string]string{}, pending: map[string]bool{}}
 			tkey := "x/" + m + "/types." + mt
 			fr.env[msgName] = taint{"msg:" + tkey: true}
 			w.walkBlock(fr, fi.decl.Body)
@@ -1592,6 +1606,164 @@ func extractSweeps() []Sweep {
 }
 
 // ---------------------------------------------------------------------------------------------
+// price lookup call sites: what happens to the returned error
+//
+// For every call of CalcAssetPrice / GetLatestPrice (the market keeper's functions and the modules' wrappers of the same
+// name) in non-test keeper code:
+//   checked      the error variable is tested (if … err …) or returned before anything else touches it
+//   ignored      the error is assigned to _
+//   overwritten  the error variable is assigned again before it was tested (the first error is lost)
+//   unchecked    the error variable is never looked at afterwards in its block
+
+type PriceCall struct {
+	file, fn, callee, asset, status string
+	line                            int
+}
+
+func mentionsIdent(n ast.Node, name string) bool {
+	if n == nil {
+		return false
+	}
+	found := false
+	ast.Inspect(n, func(x ast.Node) bool {
+		if id, ok := x.(*ast.Ident); ok && id.Name == name {
+			found = true
+		}
+		return !found
+	})
+	return found
+}
+
+func priceCallOf(e ast.Expr) (*ast.CallExpr, string) {
+	c, ok := e.(*ast.CallExpr)
+	if !ok {
+		return nil, ""
+	}
+	if se, ok := c.Fun.(*ast.SelectorExpr); ok && basePrice[se.Sel.Name] {
+		return c, se.Sel.Name
+	}
+	return nil, ""
+}
+
+func extractPriceCalls() []PriceCall {
+	var out []PriceCall
+	var keys []FuncKey
+	for k := range index {
+		keys = append(keys, k)
+	}
+	sort.Slice(keys, func(i, j int) bool {
+		a, b := index[keys[i]], index[keys[j]]
+		if a.file != b.file {
+			return a.file < b.file
+		}
+		return line(a.decl) < line(b.decl)
+	})
+	for _, k := range keys {
+		fi := index[k]
+		var visitBlock func(list []ast.Stmt)
+		statusAfter := func(list []ast.Stmt, i int, ev string) string {
+			for _, st := range list[i+1:] {
+				if !mentionsIdent(st, ev) {
+					continue
+				}
+				switch x := st.(type) {
+				case *ast.IfStmt:
+					if x.Init != nil && mentionsIdent(x.Init, ev) {
+						if as, ok := x.Init.(*ast.AssignStmt); ok {
+							for _, l := range as.Lhs {
+								if id, ok := l.(*ast.Ident); ok && id.Name == ev {
+									return "overwritten"
+								}
+							}
+						}
+					}
+					if mentionsIdent(x.Cond, ev) {
+						return "checked"
+					}
+					return "unchecked"
+				case *ast.ReturnStmt:
+					return "checked"
+				case *ast.AssignStmt:
+					for _, l := range x.Lhs {
+						if id, ok := l.(*ast.Ident); ok && id.Name == ev {
+							return "overwritten"
+						}
+					}
+					return "checked"
+				default:
+					return "checked"
+				}
+			}
+			return "unchecked"
+		}
+		record := func(call *ast.CallExpr, callee, status string) {
+			asset := ""
+			if len(call.Args) >= 2 {
+				asset = src(call.Args[1])
+			}
+			out = append(out, PriceCall{file: fi.file, fn: fi.key.name, callee: callee, asset: asset, status: status, line: line(call)})
+		}
+		handleAssign := func(list []ast.Stmt, i int, as *ast.AssignStmt) {
+			if len(as.Rhs) != 1 {
+				return
+			}
+			call, callee := priceCallOf(as.Rhs[0])
+			if call == nil {
+				return
+			}
+			last, ok := as.Lhs[len(as.Lhs)-1].(*ast.Ident)
+			if !ok {
+				record(call, callee, "checked")
+				return
+			}
+			if last.Name == "_" {
+				record(call, callee, "ignored")
+				return
+			}
+			record(call, callee, statusAfter(list, i, last.Name))
+		}
+		visitBlock = func(list []ast.Stmt) {
+			for i, st := range list {
+				switch x := st.(type) {
+				case *ast.AssignStmt:
+					handleAssign(list, i, x)
+				case *ast.IfStmt:
+					if as, ok := x.Init.(*ast.AssignStmt); ok && len(as.Rhs) == 1 {
+						if call, callee := priceCallOf(as.Rhs[0]); call != nil {
+							st := "unchecked"
+							if last, ok := as.Lhs[len(as.Lhs)-1].(*ast.Ident); ok {
+								if last.Name == "_" {
+									st = "ignored"
+								} else if mentionsIdent(x.Cond, last.Name) {
+									st = "checked"
+								}
+							}
+							record(call, callee, st)
+						}
+					}
+				case *ast.ReturnStmt:
+					for _, r := range x.Results {
+						if call, callee := priceCallOf(r); call != nil {
+							record(call, callee, "checked")
+						}
+					}
+				}
+			}
+		}
+		ast.Inspect(fi.decl.Body, func(n ast.Node) bool {
+			switch b := n.(type) {
+			case *ast.BlockStmt:
+				visitBlock(b.List)
+			case *ast.CaseClause:
+				visitBlock(b.Body)
+			}
+			return true
+		})
+	}
+	return out
+}
+
+// ---------------------------------------------------------------------------------------------
 // output
 
 func q(s string) string {
@@ -1629,6 +1801,7 @@ func main() {
 	hs := extractHandlers()
 	ws, lists, listNames := extractWasm()
 	sw := extractSweeps()
+	pcs := extractPriceCalls()
 
 	var b strings.Builder
 	b.WriteString("/-! GENERATED by extract/guards from the comdex source tree — do not edit; regenerated on every run.\n")
@@ -1638,6 +1811,7 @@ func main() {
 	b.WriteString("structure Handler where\n  module : String\n  name : String\n  msgType : String\n  signer : String\n  file : String\n  line : Nat\n  items : List Item\n  deriving Repr\n\n")
 	b.WriteString("structure WasmArm where\n  chain : String\n  list : String\n  idx : Nat\n  addr : String\n  deriving Repr, DecidableEq\n\n")
 	b.WriteString("structure WasmHandler where\n  variant : String\n  method : String\n  arms : List WasmArm\n  guardFirst : Bool\n  otherChainsOpen : Bool\n  line : Nat\n  deriving Repr\n\n")
+	b.WriteString("structure PriceCall where\n  file : String\n  fn : String\n  callee : String\n  asset : String\n  status : String\n  line : Nat\n  deriving Repr\n\n")
 	b.WriteString("structure Sweep where\n  module : String\n  fn : String\n  found : Bool\n  action : String\n  conn : String\n  breaker : String\n  esm : String\n  wb : Bool\n  line : Nat\n  deriving Repr\n\n")
 	for _, h := range hs {
 		fmt.Fprintf(&b, "def h_%s_%s : Handler := { module := %s, name := %s, msgType := %s, signer := %s, file := %s, line := %d, items := [\n",
@@ -1712,6 +1886,15 @@ func main() {
 		}
 		fmt.Fprintf(&b, "  { module := %s, fn := %s, found := %s, action := %s, conn := %s, breaker := %s, esm := %s, wb := %s, line := %d }%s\n",
 			q(s.module), q(s.fn), bl(s.found), q(s.action), q(s.conn), q(s.breaker), q(s.esm), bl(s.wb), s.line, sep)
+	}
+	b.WriteString("]\n\n")
+	b.WriteString("/-- every call of CalcAssetPrice / GetLatestPrice in keeper code and what happens to its error -/\ndef priceCalls : List PriceCall := [\n")
+	for i, c := range pcs {
+		sep := ","
+		if i == len(pcs)-1 {
+			sep = ""
+		}
+		fmt.Fprintf(&b, "  { file := %s, fn := %s, callee := %s, asset := %s, status := %s, line := %d }%s\n", q(c.file), q(c.fn), q(c.callee), q(c.asset), q(c.status), c.line, sep)
 	}
 	b.WriteString("]\n\nend Comdex.Gen.Guards\n")
 	if *out == "" {
